@@ -168,7 +168,7 @@ def run(chk, replay=None):
         p = subprocess.run([CLI, 'redact', '-w'], input=(line + '\n').encode(), capture_output=True)
         outs.append(p.stdout)
         chk.count()
-    exp = run_harness([{"op": "cfg", "repl": b64(b'REDACTED')}, {"op": "hash", "s": b64(b'mydb.orders.archive')}])[1]
+    exp = run_harness([{"op": "cfg", "repl": b64(default_repl().encode())}, {"op": "hash", "s": b64(b'mydb.orders.archive')}])[1]      # the run above gives no -r: the default text, whatever it is
     if outs[0] != outs[1] or unb64(exp['o']) not in outs[0]:
         chk.violate('CLI -w output differs between processes or from HashName', {'outs': [o.decode('utf-8', 'replace') for o in outs]}, tags=['cli'])
     if thorough:
